@@ -301,7 +301,7 @@ func c08Run(c *engine.Ctx) {
 	WorkDir()
 	toks := []string{"-r", "--raw-output0", "-j", "-c", "--indent", "--indent=3", "7", "--tab", "--yaml-output", "-C", "-M", "-n", "-R", "--stream", "--yaml-input", "-s", "-f", "-L", "mods",
 		"--arg", "--argjson", "--slurpfile", "--rawfile", "--args", "--jsonargs", "-e", "-v", "-h", "--", "-nr", "-x", "--bogus", "--arg=x", "-cs",
-		".", "halt_error", "input", ".[", "x", `{"a":1}`, "f.json", "missing.json", "dir", "q.jq", "bad.json", "raw.txt", ".a", "$x", "1, error, 2", "import \"m\" as m; m::mf"}
+		".", "halt_error", "input", ".[", "x", `{"a":1}`, "f.json", "missing.json", "dir", "q.jq", "bad.json", "raw.txt", ".a", "$x", "1, error, 2", "import \"m\" as m; m::mf", "import \"cyca\" as a; a::f", "include \"self\"; h", "import \"fan\" as f; f::k", "\"cycb\" | modulemeta"}
 	stdins := []string{"", `{"a":[1,2]}`, `{"a":`, "\xff\xfe", "a\x00b", "[" + strings.Repeat(`"0123456789",`, 3200) + "1]", "1 2 3"}
 	maxLen := 3
 	ai := 0
@@ -609,7 +609,7 @@ func init() {
 		ID:    "C08",
 		Level: "exploration",
 		Rule: "(a) every single-byte deletion, insertion and replacement (20-token alphabet, thorough 40) at every position of every corpus query is parsed and, if accepted, compiled, run on 3 inputs under a poll budget and rendered with Marshal/Preview/Error(); (b) every builtin name/arity reported by `builtins` is called on every value of a 60-value universe of wrong-typed and boundary values in every Go representation (NaN/inf float64, huge *big.Int, out-of-range json.Number, invalid UTF-8, odd containers) as input and as argument values; " +
-			"(c) every argument sequence of length <= 3 over a 50-token alphabet (flags in all spellings, missing and malformed operands, files present/absent/directory, good and bad queries) x 7 stdin texts runs in-process, a deterministic slice again through the real binary. Verdict per case: no panic/fatal, ParseError.Offset within the source, failures as error values, documented exit status, no Go stack trace.",
+			"(c) every argument sequence of length <= 3 over a 54-token alphabet (incl. modules that import each other or themselves) (flags in all spellings, missing and malformed operands, files present/absent/directory, good and bad queries) x 7 stdin texts runs in-process, a deterministic slice again through the real binary. Verdict per case: no panic/fatal, ParseError.Offset within the source, failures as error values, documented exit status, no Go stack trace.",
 		Assume:         []string{"budget exhaustion, hangs and memory exhaustion are recorded as skipped, not as violations (the statement excludes programs that legitimately demand unbounded resources)"},
 		Run:            c08Run,
 		Replay:         c08Replay,
